@@ -138,6 +138,17 @@ CLAIMED = {
         design_ref="DESIGN.md §5 C13",
         note="TLC does not start interpreters: the harness does; TLC decides equality across processes (strings).",
     ),
+    "C14": dict(
+        technique="TLC-enumerated domain/support tables (Dist.tla) and stream-pointer/cache state machine (DistState.tla) executed on the real distributions with scripted and counting streams",
+        category="model_checking",
+        text="Dist.tla enumerates, for 19 classes and their parameter regimes (algorithmic branches and out-of-domain regions), what the constructor "
+             "must do and the support every draw must lie in for every scripted stream prefix over the alphabet of extreme uniforms "
+             "{0, 5e-324, 2^-53, 1/4, 1/2, 3/4, 1-2^-53}; every row is executed (must terminate, not raise, land in the support). DistState.tla "
+             "models stream pointers, the polar-normal cache and re-pointing; its behaviours are replayed on real instances over counting "
+             "streams with a twin system in lockstep (purity, instance isolation, the old stream never consumed again).",
+        design_ref="DESIGN.md §5 C14",
+        note="Genuine deviations at extreme uniforms (D14) are listed in known_findings.json by (class, regime, outcome, triggering uniform); support membership is classified by the projection.",
+    ),
 }
 
 NOT_APPLICABLE = {
